@@ -262,6 +262,54 @@ theorem pySliceStep_subset {β} (l : List β) (a b : Option Int) (st : Int) :
   obtain ⟨i, _, hi⟩ := hx
   exact List.mem_of_getElem? hi
 
+/-! ### `[::-1]` is the reversed result -/
+
+private theorem takeWhile_all {α} (p : α → Bool) : ∀ (l : List α), (∀ x ∈ l, p x = true) → l.takeWhile p = l
+  | [], _ => rfl
+  | a :: l, h => by
+      rw [List.takeWhile_cons_of_pos (h a (List.mem_cons_self ..)), takeWhile_all p l (fun x hx => h x (List.mem_cons_of_mem _ hx))]
+
+theorem sliceIndices_rev (len : Nat) : sliceIndices len none none (-1) = (List.range len).reverse := by
+  unfold sliceIndices
+  simp only [show ¬ ((-1 : Int) > 0) by decide, if_false, Option.map_none, Option.getD_none]
+  rw [takeWhile_all]
+  · rw [List.map_map]
+    apply List.ext_getElem
+    · simp
+    · intro i h1 h2
+      simp only [List.getElem_map, List.getElem_range, Function.comp, List.getElem_reverse, List.length_range]
+      simp only [List.length_map, List.length_range] at h1
+      have e : Int.ofNat i = (i : Int) := rfl
+      rw [e]
+      omega
+  · intro x hx
+    simp only [List.mem_map, List.mem_range] at hx
+    obtain ⟨k, hk, rfl⟩ := hx
+    simp only [decide_eq_true_eq]
+    have : Int.ofNat k = (k : Int) := rfl
+    omega
+
+private theorem filterMap_range_getElem? {β} : ∀ (l : List β), (List.range l.length).filterMap (fun i => l[i]?) = l
+  | [] => rfl
+  | a :: l => by
+      rw [List.length_cons, List.range_succ_eq_map, List.filterMap_cons]
+      simp only [List.getElem?_cons_zero, List.filterMap_map]
+      congr 1
+      have := filterMap_range_getElem? l
+      simpa [Function.comp_def] using this
+
+theorem pySliceStep_reverse {β} (l : List β) : pySliceStep l none none (-1) = l.reverse := by
+  unfold pySliceStep
+  rw [sliceIndices_rev, List.filterMap_reverse, filterMap_range_getElem?]
+
+/-- `query(p).order_by(k)[::-1].fits`-like: a last slice `[::-1]` returns the ordered result backwards, every
+fit exactly once -/
+theorem runStep_reverse {α} (ops : NumOps α) (numLe : α → α → Bool) (cfg : Cfg) (db : List (Fit α))
+    (p : Option (Pred α)) (keys : List OrderKey) (slices : List (Option Int × Option Int)) :
+    runStep ops numLe cfg db p keys slices (some (none, none, -1)) = (run ops numLe cfg db p keys slices).reverse := by
+  simp only [runStep]
+  exact pySliceStep_reverse _
+
 example : pySliceStep [10, 11, 12, 13, 14] none none (-1) = [14, 13, 12, 11, 10] := by decide
 example : pySliceStep [10, 11, 12, 13, 14] (some 4) (some 1) (-1) = [14, 13, 12] := by decide
 
